@@ -30,6 +30,7 @@
       keys a ModifyTable drops or re-points are live. *)
 From Coq Require Import List Bool Arith Permutation Sorted.
 From Atlas Require Import Plan.SortModel Plan.SortDfs Plan.SortReplay Plan.SortProofs Plan.SortDialect Plan.SortExamples.
+From Atlas Require Import Plan.SortTidbModel Plan.SortTidbProofs gen.Gen_TidbPriority.
 Import ListNotations.
 
 (** 1. "Plans never fail or loop because of a cycle": for EVERY change list -- any reference
@@ -118,6 +119,51 @@ Theorem C04_safe_with_schemas : forall l c,
   exists r c', plan_all l = Some (schemas_of l, r) /\ plan (tables_of l) = POk r /\ replay r c = Some c'.
 Proof. exact plan_all_safe. Qed.
 
+(** 5. The TiDB planner (round 5): sql/mysql/tidb.go, PlanChanges of tplanApply -- installed by mysql.Open when the
+    server version contains "TiDB".  It runs DetachCycles, flattens every ModifyTable into atomic ModifyTables ([tflat]),
+    re-sorts them with sort.SliceStable by [priority] (the table is dumped from the Go source on every run:
+    gen/Gen_TidbPriority.v) and plans each atomic change alone with the MySQL planner ([tidb_sources]).  There is
+    NO SortChanges pass over the list.
+    For EVERY change list: the planner returns, its order is the flattened DetachCycles output sorted by priority
+    with the order of equal priorities kept (the sort is stable), every element is atomic (priority's c.Changes[0]
+    is defined), and creations, drops and declared foreign keys are the input's. *)
+Theorem C04_tidb_total : forall cs : list change, exists l, tidb_order cs = TOk l.
+Proof. exact tidb_order_total. Qed.
+
+Theorem C04_tidb_order : forall cs l, tidb_order cs = TOk l ->
+  exists d, tidb_detach cs = DCOk d /\ Permutation (tflat d) l /\ StronglySorted ple l /\
+    (forall k, filter (fun x => priority x =? k) l = filter (fun x => priority x =? k) (tflat d)) /\
+    (forall x, In x l -> atomic x).
+Proof. exact tidb_order_spec. Qed.
+
+Theorem C04_tidb_once : forall cs l, tidb_order cs = TOk l ->
+  Permutation (flat_map adds cs) (flat_map adds l) /\
+  Permutation (flat_map drops cs) (flat_map drops l) /\
+  Permutation (flat_map decl cs) (flat_map decl l).
+Proof. exact tidb_once. Qed.
+
+(** The full statement for this planner,
+      C04_tidb_safe : forall cs c, WF cs -> consistent c cs -> exists l c', tidb_plan cs = TOk l /\ replay l c = Some c',
+    is FALSE: priority(ModifyForeignKey) = 3 < priority(AddTable) = 4, so a foreign key that is re-pointed to a table
+    the same change set creates is declared before its parent exists (finding C04-tidb-modfk-priority, reproduced on
+    mysql.Open(sqlmock "5.7.25-TiDB-v6.1.0").PlanChanges: ALTER TABLE t0 ADD CONSTRAINT .. REFERENCES t1 before
+    CREATE TABLE t1).  Witness: SortExamples.ch_cs (WF and consistent: C04_safe covers it for the other planners). *)
+Theorem C04_tidb_safe_refuted : exists cs c l,
+  WF cs /\ consistent c cs /\ tidb_plan cs = TOk l /\ replay l c = None.
+Proof. exists ch_cs, ch_cat, ch_tidb. exact (conj ch_wf (conj ch_cons ch_tidb_runs)). Qed.
+
+(** The failing class, for ALL inputs: whenever a ModifyForeignKey of the change set points its new side at a table
+    that is not in the catalogue (i.e. that the change set has to create first), the TiDB order fails to replay --
+    with no hypothesis on the change set.  The converse (the TiDB plan of a WF change set replays on a consistent
+    catalogue when no key is re-pointed to a table the set creates) is the conjectured exact exception
+    C04_tidb_safe_except; it is NOT proved here (it needs split_ok for the flattened list, where a table is the
+    subject of several changes).  The harness evaluates it on every case of stage tidb (counters
+    exact:tidb-predicted-ok / -fail / MISPREDICTED: 16 770 of 16 770 predicted). *)
+Theorem C04_tidb_unsafe_class : forall cs c l t tcs from to,
+  In (ModifyTable t tcs) cs -> In (ModifyFK from to) tcs -> ~ In (qn (f_ref to)) (c_tabs c) ->
+  tidb_order cs = TOk l -> replay l c = None.
+Proof. exact tidb_unsafe_class. Qed.
+
 Print Assumptions C04_total.
 Print Assumptions C04_total_parts.
 Print Assumptions C04_once.
@@ -129,6 +175,11 @@ Print Assumptions C04_acyclic_sort_is_partition.
 Print Assumptions C04_safe_dialects.
 Print Assumptions C04_toplevel_once.
 Print Assumptions C04_safe_with_schemas.
+Print Assumptions C04_tidb_total.
+Print Assumptions C04_tidb_order.
+Print Assumptions C04_tidb_once.
+Print Assumptions C04_tidb_safe_refuted.
+Print Assumptions C04_tidb_unsafe_class.
 
 (** Non-vacuity. *)
 (* C04_total / C04_once: a 3-cycle of created tables is planned (6 changes out of 3). *)
@@ -210,4 +261,22 @@ Proof. exact (conj tw_wf (conj tw_cons tw_runs)). Qed.
 Example C04_safe_with_schemas_ex :
   plan_all (GSchema (AddSchema 2) :: GSchema (ModifySchema 1) :: map GTable tw_cs)
     = Some ([AddSchema 2; ModifySchema 1], tw_plan).
+Proof. vm_compute. reflexivity. Qed.
+
+(* round 5 -- the TiDB planner on the chain example: the re-pointed key (priority 3) is declared before CREATE TABLE 1
+   (priority 4); DROP TABLE 3 keeps the place DetachCycles gave it (no SortChanges) *)
+Example C04_tidb_ex :
+  tidb_order ch_cs = TOk
+    [ ModifyTable (des 0) [ModifyFK (mkFK 5 (cur 0) (cur 3)) (mkFK 5 (des 0) (des 1))];
+      AddTable (des 2) []; DropTable (cur 3) []; AddTable (des 1) [mkFK 22 (des 1) (des 2)] ] /\
+  tidb_plan ch_cs = TOk ch_tidb /\ replay ch_tidb ch_cat = None /\
+  (exists c', replay ch_plan ch_cat = Some c').
+Proof. vm_compute. repeat split; try reflexivity. eexists; reflexivity. Qed.
+
+(* C04_tidb_order / C04_tidb_once: a ModifyTable with four sub-changes among two creations flattens to 6 atomic
+   changes and is re-sorted: AddColumn (1), DropForeignKey (2), then the rest in DetachCycles' order *)
+Example C04_tidb_order_ex :
+  tidb_order [ AddTable (des 1) []; ModifyTable (des 0) [Other 1; AddFK (mkFK 21 (des 0) (des 1)); DropFK (mkFK 5 (cur 0) (cur 2)); Other 2] ]
+  = TOk [ ModifyTable (des 0) [Other 2]; ModifyTable (des 0) [DropFK (mkFK 5 (cur 0) (cur 2))];
+          AddTable (des 1) []; ModifyTable (des 0) [Other 1]; ModifyTable (des 0) [AddFK (mkFK 21 (des 0) (des 1))] ].
 Proof. vm_compute. reflexivity. Qed.
